@@ -181,8 +181,53 @@ func ruleWaitingEscapable(c *Ctx, rule string) {
 	own := func(op *BlockOp, ctx ssa.Value) (bool, string) {
 		return p.lpath(ctx) == "p:ctx", "escape context " + p.lpath(ctx) + " (required: the caller's ctx)"
 	}
-	n := ruleEscapable(c, rule, []*ssa.Function{p.MustFn("client.RpcMultiplexer.CallUnaryMethod"), rd}, nil, own)
+	fns := []*ssa.Function{p.MustFn("client.RpcMultiplexer.CallUnaryMethod"), rd}
+	n := ruleEscapable(c, rule, fns, nil, own)
 	c.floor(rule, "waits in the unary call and the stream reader", n, 3)
+	// the wait for a reply has exactly two ways out: the per-call queue and the caller's own context. Any further
+	// case (e.g. the connection's context) races with a reply that is already buffered and can drop it.
+	for _, f := range fns {
+		for _, op := range p.Blocks().ops[f] {
+			if op.Kind != "select" {
+				continue
+			}
+			okShape := true
+			var extra []string
+			nq := 0
+			for _, ch := range op.Chans {
+				d := p.chanDesc(ch)
+				if d == "Done()" {
+					continue
+				}
+				nq++
+			}
+			for _, cx := range op.EscapeCtx {
+				if p.lpath(cx) != "p:ctx" {
+					okShape = false
+					extra = append(extra, p.lpath(cx)+".Done()")
+				}
+			}
+			if nq != 1 {
+				okShape = false
+			}
+			c.check(rule, p.cname(f)+":wait-has-only-queue-and-caller-context", okShape, fmt.Sprintf("the reply wait selects on its queue and the caller's context only (extra cases: %v, data queues: %d)", extra, nq), p.ipos(op.Instr))
+		}
+	}
+}
+
+// ruleWhoPublishesFailure: the connection-wide failure (which closes every per-call queue) is published only by the
+// read-loop goroutine and by Close. A caller's own write error or context must not fail everybody else's calls.
+func ruleWhoPublishesFailure(c *Ctx, rule string) {
+	p := c.p
+	ce := p.MustFn("client.RpcMultiplexer.closeError")
+	n := 0
+	for _, cs := range p.Callers(ce) {
+		n++
+		k := p.cname(cs.caller)
+		ok := k == "client.RpcMultiplexer.Close" || strings.HasPrefix(k, "client.NewRpcMultiplexer$go")
+		c.check(rule, "closeError←"+k, ok, "closeError (fails every call on the connection) is invoked only by the read-loop goroutine and Close", p.ipos(cs.instr))
+	}
+	c.floor(rule, "callers of closeError", n, 2)
 }
 
 // ================= C10 =================
